@@ -50,7 +50,8 @@ class Concretizer:
             s = s.rjust(n, '0') if n >= len(s) else str(rank % 10) * n
             out = list(s)
         else:
-            alpha = 'abcdefghijklmnopqrstuvwxyz'
+            # mixed case, distinct neighbours: case conversions and misplaced characters stay visible
+            alpha = 'aBcDeFgHiJkLmNoPqRsTuVwXyZ'
             for i in range(n):
                 if used:
                     cp = self.ev(sym.atom(z3.Select(T.chars, z3.IntVal(i))))
@@ -58,7 +59,8 @@ class Concretizer:
                         cp = 63
                     out.append(chr(cp))
                 else:
-                    out.append(alpha[(i + 7 * rank) % 26] if rank == 0 else alpha[(i + 7 * rank) % 26].upper())
+                    ch = alpha[(i + 7 * rank) % 26]
+                    out.append(ch if rank % 2 == 0 else ch.swapcase())
         s = ''.join(out)
         self.text_cache[T.name] = s
         return s
@@ -120,9 +122,24 @@ class Concretizer:
                 out = iter([self.val(x) for x in v.seq[v.pos:]])
                 self.memo[id(v)] = out
                 return out
+            from . import abstract as _ab
+            if v.cls == 'AnsiString' and isinstance(v.attrs.get('_fmts'), _ab.AbsTbl):
+                obj = self.abstract_ansistring(v)
+                self.memo[id(v)] = obj
+                return obj
             ncls = self.native_class(v.cls)
             if v.cls == 'AnsiStr':
-                obj = str.__new__(ncls, self.val(v.attrs.get('__payload__', '')))
+                pay = v.attrs.get('__payload__', '')
+                from .builtins_model import UStr as _UStr
+                if isinstance(pay, _UStr):
+                    # payload known only as "the rendering of the wrapped value": take the real rendering
+                    inner = self.val(v.attrs['_s'])
+                    pay = inner.to_str()
+                    obj = str.__new__(ncls, pay)
+                    self.memo[id(v)] = obj
+                    object.__setattr__(obj, '_s', inner)
+                    return obj
+                obj = str.__new__(ncls, self.val(pay))
             else:
                 obj = ncls.__new__(ncls)
             self.memo[id(v)] = obj
@@ -135,6 +152,40 @@ class Concretizer:
         if isinstance(v, ClassRef):
             return self.native_class(v.name)
         raise Unsupported('concretize %r' % (type(v),))
+
+    def abstract_ansistring(self, v):
+        """A concrete AnsiString whose per-character settings realise the model's interpretation of vt(table, i):
+        each distinct abstract settings-list value becomes one distinct setting, applied over its runs with the
+        library's own apply_formatting."""
+        from . import abstract as _ab
+        text = self.val(v.attrs['_s'])
+        ncls = self.native_class('AnsiString')
+        pcls = self.native_class('_AnsiSettingPoint')
+        obj = ncls.__new__(ncls)
+        obj._s = text
+        obj._fmts = {}
+        term = v.attrs['_fmts'].term
+        nil = str(self.m.eval(_ab.NIL, model_completion=True))
+        objs = self.__dict__.setdefault('_vl_objs', {})
+        vals = [str(self.m.eval(_ab.VT(term, z3.IntVal(i)), model_completion=True)) for i in range(len(text))]
+
+        def point(k):
+            if k not in obj._fmts:
+                obj._fmts[k] = pcls()
+            return obj._fmts[k]
+        i = 0
+        while i < len(vals):
+            j = i
+            while j < len(vals) and vals[j] == vals[i]:
+                j += 1
+            if vals[i] != nil:
+                if vals[i] not in objs:
+                    palette = ['31', '32', '33', '34', '35', '36', '1', '3', '4', '9', '41', '42', '43', '44']
+                    objs[vals[i]] = self.native_class('AnsiSetting')(palette[len(objs) % len(palette)])
+                point(i).add.append(objs[vals[i]])
+                point(j).rem.append(objs[vals[i]])
+            i = j
+        return obj
 
     def native_class(self, cname):
         ci = self.p.classes[cname]
